@@ -256,3 +256,13 @@ func OkFreshTraveler(t gdbi.Traveler) string {
 	ode.ID = "x"
 	return ode.ID
 }
+
+// BadIfaceEqual compares two request-JSON values with ==.
+func BadIfaceEqual(a, b *structpb.Value) bool {
+	return a.AsInterface() == b.AsInterface()
+}
+
+// OkIfaceNil compares a request-JSON value with nil only.
+func OkIfaceNil(a *structpb.Value) bool {
+	return a.AsInterface() == nil
+}
